@@ -104,6 +104,55 @@ Theorem c05_heap_order : forall ops now l,
 Proof. exact heap_order. Qed.
 Print Assumptions c05_heap_order.
 
+(* Periodic timers, closed form.  A scheduled periodic node with due time D (always in
+   the future of the tick time: the wheel invariant) and period p > 0 has been delivered,
+   after k ticks, exactly [pcount] times: 0 while tt+k < D, else (tt+k-D)/p + 1 — i.e.
+   during the ticks D, D+p, D+2p, ... and during no other tick. *)
+Theorem c05_wheel_periodic_exact : forall w r n k,
+  winv w -> In n (wcontent w) -> alive r n = true -> 0 < nper n ->
+  Z.of_nat (count_occ Z.eq_dec (map fst (snd (N.iter k wtick_acc (w, r, [])))) (nid n)) =
+  pcount (wtt w) (ndl n) (nper n) k.
+Proof. exact wheel_periodic_exact. Qed.
+Print Assumptions c05_wheel_periodic_exact.
+
+(* RunEvery(p), p > 0, accepted while the wheel is at any position: after k further ticks
+   it has fired k / p times — during the ticks cur0+p, cur0+2p, ... exactly. *)
+Theorem c05_wheel_every_exact : forall w r id p k,
+  winv w -> ~ In id (map nid (wcontent w)) -> mem id r = true -> 0 < p ->
+  Z.of_nat (count_occ Z.eq_dec
+    (map fst (snd (wupdate (add_node w (mkNode id (wtt w + p) p)) r (wtt w + Z.of_N k)))) id) =
+  Z.of_N k / p.
+Proof. exact wheel_every_exact. Qed.
+Print Assumptions c05_wheel_every_exact.
+
+Theorem c05_spec_periodic_exact : forall t0 n k P r,
+  0 < nper n -> t0 < ndl n -> NoDup (map nid P) -> In n P ->
+  Z.of_nat (count_occ Z.eq_dec (map fst (snd (N.iter k ticks_acc (t0, P, r, [])))) (nid n)) =
+  pcount t0 (ndl n) (nper n) k.
+Proof. exact spec_periodic_exact. Qed.
+Print Assumptions c05_spec_periodic_exact.
+
+(* The heap in terms of the `now` readings of its ticks (tick bursts: one call of
+   tick(now) whatever time passed): a scheduled node is delivered by tick(now) iff its
+   deadline is <= now; a periodic one is then re-armed at now + period, so its next
+   delivery is on the first tick at or after one period past this delivery; a one-shot
+   one leaves the refer map. *)
+Theorem c05_heap_tick_due : forall h r now n,
+  NoDup (map nid h) -> In n h -> alive r n = true -> ndl n <= now ->
+  let '(h', r', o) := htick h r now in
+  In (deliv_of n) o /\
+  (periodic n = true -> In (rearm now n) h' /\ alive r' n = true) /\
+  (periodic n = false -> ~ In (nid n) r').
+Proof. exact heap_tick_due. Qed.
+Print Assumptions c05_heap_tick_due.
+
+Theorem c05_heap_tick_not_due : forall h r now n,
+  NoDup (map nid h) -> In n h -> alive r n = true -> now < ndl n ->
+  let '(h', r', o) := htick h r now in
+  ~ In (nid n) (map fst o) /\ In n h' /\ alive r' n = true.
+Proof. exact heap_tick_not_due. Qed.
+Print Assumptions c05_heap_tick_not_due.
+
 (* ---- the heap timer with its real array (HeapArr.v: timerHeap's Swap/Push/Pop index
    updates and container/heap's up/down/Push/Pop/Remove/Fix transcribed) ---- *)
 
